@@ -191,7 +191,7 @@ def direct_atom(rng, G, cell, kinds=('Uiso', 'Uani', None)):
     if adp_type == 'Uani' and len(stab) > 1:
         adp = symmetrise_adp(G, stab, adp, cell)
     return {'atomtype': rng.choice(c07.elements()), 'pos': [float(v) for v in p], 'pos_frac': [[v.numerator, v.denominator] for v in p],
-            'adp_type': adp_type, 'adp': adp, 'occ': rng.choice([1.0, rng.uniform(0.05, 1.0)]), 'symmulti': len(points),
+            'adp_type': adp_type, 'adp': adp, 'occ': rng.choice([1.0, 1.0, 1.0, rng.uniform(0.05, 1.0), rng.uniform(0.05, 1.0), 0.0]), 'symmulti': len(points),
             'pos_kind': pk, 'site_symmetry_order': len(stab)}
 
 
@@ -201,7 +201,7 @@ def free_atom(rng, G, kinds=('Uiso', 'Uani', None)):
     pos = [rng.randint(0, 24) / 24.0 if rng.random() < 0.25 else rng.uniform(0.0, 1.0) for _ in range(3)]
     sm = rng.choice([G['nsymop'], rng.randint(1, G['nsymop']), rng.uniform(0.3, 5.0)])
     return {'atomtype': rng.choice(c07.elements()), 'pos': pos, 'adp_type': adp_type, 'adp': adp,
-            'occ': rng.choice([1.0, rng.uniform(0.05, 1.0)]), 'symmulti': sm}
+            'occ': rng.choice([1.0, 1.0, 1.0, rng.uniform(0.05, 1.0), rng.uniform(0.05, 1.0), 0.0]), 'symmulti': sm}
 
 
 # ------------------------------------------------------------------------------------------------
@@ -314,7 +314,7 @@ def oracle(ctx, hints=()):
             h = c07.rand_hkl(rng, 8)
             base = {'sgname': e['name'], 'cell': cell, 'hkl': h, 'atoms': atoms, 'disper': disper}
             viol += evaluate('shift', dict(base, shift=[[rng.randint(-3, 3) for _ in range(3)] for _ in atoms]), stats)
-            viol += evaluate('occ_scale', dict(base, c=rng.choice([0.5, 0.25, rng.uniform(0.05, 1.0)])), stats)
+            viol += evaluate('occ_scale', dict(base, c=rng.choice([0.5, 0.25, 0.0, rng.uniform(0.05, 1.0)])), stats)
             viol += evaluate('additive', dict(base, split=rng.randint(1, nat - 1)), stats)
             viol += evaluate('disp_branches', dict(base, disper=None), stats)
             # Uiso == isotropic Uani: sin(theta)/lambda of hR must equal that of h -> conforming cell
